@@ -839,6 +839,18 @@ fn run_rd(c: &Case) -> Obs {
                     }
                 }
             }
+            // BCF: the stream ends inside the header text (fewer than l_text bytes follow the l_text field):
+            // the sync header reader reports UnexpectedEof (/repo b36f6c8), the async one parses what is there
+            if fmt == "bcf" {
+                if let Ok(p) = bgzf_decode(&file) {
+                    if p.len() >= 9 && &p[..3] == b"BCF" {
+                        let l_text = u32::from_le_bytes([p[5], p[6], p[7], p[8]]) as usize;
+                        if p.len() - 9 < l_text {
+                            return Obs::fail("-", "async-bcf-header-text-shorter-than-l-text", format!("{detail} file={}", crate::short_hex(&file)));
+                        }
+                    }
+                }
+            }
             // FASTA: a CR at the beginning of a sequence line (followed by a byte other than LF) is kept by
             // the async reader and skipped by the sync one
             if fmt == "fasta" && (0..file.len()).any(|i| (i == 0 || file[i - 1] == b'\n') && file[i] == b'\r' && i + 1 < file.len() && file[i + 1] != b'\n') {
